@@ -227,7 +227,7 @@ def run(ctx):
     if len(loc) < 3:
         return
     backs = [p for p in paths if p.end[0] == "back"]
-    ctx.floor("D1-TOK-TABLE", DV, "scan-loop back-edge paths", len(backs), 10)
+    ctx.floor("D1-TOK-TABLE", DV, "scan-loop back-edge paths", len(backs), 5)
 
     def cur_char(t):
         return is_call(t, "Option::unwrap") and mentions(t, lambda s: is_call(s, "Chars as std::iter::Iterator>::next")) or \
@@ -303,6 +303,9 @@ def run(ctx):
                                                            adv=[("const", "usize", len(l))] if sym and not shadow else adv, case_ok=case_ok, letter_before=letter_seen_at))
             continue
         rows.setdefault(guard[:1] + ((guard[1],) if guard[0] in ("sep", "lit") else ()), []).append(dict(p=p, pushes=pushes, rev=rev if rev_written else None, adv=adv, case_ok=case_ok, letter_before=letter_seen_at))
+
+    # (the table-driven spelling has one path for all its literals: what must not shrink is the number of token classes handled)
+    ctx.floor("D1-TOK-TABLE", DV, "token classes handled (rows)", len(rows), 11)
 
     def pushed_consts(r):
         return [const_int(x) for x in r["pushes"]]
